@@ -347,7 +347,7 @@ func minInt(a, b int) int {
 
 func TestC03Rapid(t *testing.T) {
 	rec := evid.For("C03")
-	runRapid(t, 500, 5000, func(rt *rapid.T) {
+	runRapid(t, 2000, 20000, func(rt *rapid.T) {
 		w := newC03World(rt)
 		nclaims := rapid.IntRange(4, 12).Draw(rt, "claims")
 		for ci := 0; ci < nclaims; ci++ {
